@@ -86,6 +86,12 @@ CHECKS["C16"] = {
     "note": "An embedded CR/LF may be written raw or as CR LF; PRINT USING cases outside the model (number wider than the field, commas outside thousands positions, rounding ties) are discarded and counted; LPRINT is observed on the harness's in-memory printer.",
     "design": "DESIGN.md section 2 C16",
 }
+CHECKS["C12"] = {
+    "technique": "runtime monitoring: (a) run-time monitor for Type mismatch (13) and wrong-kind assertions on accepted programs, (b) metamorphic renaming of user identifiers, (c) enumerated single ill-typing edits with a known expected error family and location, all against the real checker and VM",
+    "text": "(a) accepted programs of the whole-repertoire workload run under the monitor; (b) each program (accepted or rejected) consistently renamed, verdict must not change; (c) typed generator programs with a string literal put, one at a time, into every expression position that requires a number (operands, parentheses, call arguments, array subscripts, CASE expressions, FOR bounds, conditions, assignment sources), plus missing label, duplicate definition, NEXT for the wrong counter, wrong argument count and by-reference type edits: each must be rejected with an error of the matching family at the row of the edited statement.",
+    "note": "Error families are coarse sets fixed in the oracle table; positions are checked by row; PRINT items and string-valued positions are not edit sites.",
+    "design": "DESIGN.md section 2 C12",
+}
 CHECKS["C19"] = {
     "engine": "bitmon",
     "technique": "runtime monitoring: direct calls of the real bit-level functions compared online with the machine operations (exhaustive over all 65536 INTEGER values), plus the same primitives observed end to end through BASIC programs",
